@@ -45,7 +45,7 @@ package types
 // ---------------------------------------------------------------- C11: canonical sign bytes
 
 //@ func CreateCanonicalVote(chainID string, vote *kproto.Vote) (r kproto.CanonicalVote)
-//@   for C11 C02
+//@   for C11 C02 C03
 //@   requires vote != nil
 //@   ensures r.ChainID == chainID
 //@   ensures r.Type == vote.Type
@@ -115,7 +115,7 @@ package types
 //@   ensures numValidators == 0 ==> r.bitArray == nil
 
 //@ func (vs *blockVotes) addVerifiedVote(vote *Vote, votingPower int64)
-//@   for C02 C01
+//@   for C02 C01 C03
 //@   requires vs != nil && vote != nil && vote.ValidatorIndex < len(vs.votes)
 //@   requires vs.bitArray != nil ==> common.wfBits(vs.bitArray)
 //@   requires 0 <= votingPower && 0 <= vs.sum && vs.sum + votingPower <= 9223372036854775807
@@ -154,7 +154,7 @@ package types
 //@ spec func bucketSum(s *VoteSet, k string) int = ite(has(s.votesByBlock, k), s.votesByBlock[k].sum, 0)
 
 //@ func (voteSet *VoteSet) addVerifiedVote(vote *Vote, blockKey string, votingPower int64) (added bool, conflicting *Vote)
-//@   for C02 C01
+//@   for C02 C01 C03
 //@   requires wfVS(voteSet) && vote != nil && vote.ValidatorIndex < len(voteSet.votes)
 //@   requires 0 <= votingPower && votingPower <= 1152921504606846975
 //@   nooverflow
@@ -365,6 +365,23 @@ package types
 //@     invariant 0 <= iter && iter <= len(vs.Validators)
 //@     invariant indexOf(vs.Validators, address, iter) == -1
 
+// The update pipeline hands every stage what the previous stages established: the split of the change
+// set goes to the two verifications and to the two applications, the power removed goes into the
+// verification of the updates, and newcomers are placed against the total that verification returned
+// (the total AFTER the updates), rescaled in a window of twice the new total.
+//@ func (vs *ValidatorSet) updateWithChangeSet(changes []*Validator, allowDeletes bool) (err error)
+//@   for C12
+//@   requires vs != nil
+//@   modifies *
+//@   opt noinline
+//@   opt assumecallreqs
+//@   atcall verifyRemovals requires [removalsAreTheSplitDeletes] deletes == result(processChanges, 1) && vs == outer(vs)
+//@   atcall verifyUpdates requires [updatesVerifiedWithRemovedPower] updates == result(processChanges, 0) && removedPower == result(verifyRemovals, 0) && vals == vs
+//@   atcall computeNewPriorities requires [newcomersAgainstVerifiedTotal] updatedTotalVotingPower == result(verifyUpdates, 0) && updates == result(processChanges, 0) && vs == outer(vs)
+//@   atcall ValidatorSet.applyUpdates requires [appliesTheVerifiedUpdates] updates == result(processChanges, 0) && vs == outer(vs)
+//@   atcall ValidatorSet.applyRemovals requires [appliesTheVerifiedRemovals] deletes == result(processChanges, 1) && vs == outer(vs)
+//@   atcall ValidatorSet.RescalePriorities requires [windowIsTwiceTheNewTotal] diffMax == 2 * result(TotalVotingPower) && vs == outer(vs)
+
 // Newcomers start at -(T + T>>3) = -1.125*T of the updated total; members keep their priority.
 //@ func computeNewPriorities(updates []*Validator, vs *ValidatorSet, updatedTotalVotingPower int64)
 //@   for C12
@@ -492,8 +509,9 @@ package types
 
 // (ValidatorSetFromProto ends in ValidateBasic, which renders addresses as hex: outside the subset; its
 // field-copy loop has the same shape as ToProto's. Trusted.)
+//@ ghost field ValidatorSet.decodedFrom *kproto.ValidatorSet
 //@ trusted func ValidatorSetFromProto(vp *kproto.ValidatorSet) (r *ValidatorSet, err error)
-//@   ensures err == nil ==> fresh(r) && len(r.Validators) == len(vp.Validators) && r.totalVotingPower == vp.TotalVotingPower
+//@   ensures err == nil ==> fresh(r) && len(r.Validators) == len(vp.Validators) && r.totalVotingPower == vp.TotalVotingPower && r.decodedFrom == vp
 //@   ensures err == nil ==> forall i int :: 0 <= i && i < len(r.Validators) ==> r.Validators[i] != nil && r.Validators[i].VotingPower == vp.Validators[i].VotingPower && r.Validators[i].ProposerPriority == vp.Validators[i].ProposerPriority
 
 // Block hash accessors: they may fill the block's hash cache; nothing else that is modelled changes.
@@ -514,7 +532,7 @@ package types
 //@ trusted func (ps *PartSet) Header() (r PartSetHeader)
 
 //@ func (blockID *BlockID) IsZero() (r bool)
-//@   for C02 C03 C13
+//@   for C02 C03 C13 C11
 //@   requires blockID != nil
 //@   ensures r <==> *blockID == BlockID{}
 
@@ -565,6 +583,13 @@ package types
 //@ trusted func (tx *Transaction) To() (r *common.Address)
 // Sender recovers (or returns the cached) sender; the transaction's fields do not change.
 //@ trusted func Sender(signer Signer, tx *Transaction) (r common.Address, err error)
+// Verified aspect: the sender cache is written only after a successful recovery, with the recovered
+// address and the signer that recovered it -- a failed recovery leaves no trace for a later call.
+//@ aspect func Sender(signer Signer, tx *Transaction) (r common.Address, err error)
+//@   for C11
+//@   requires tx != nil && signer != nil
+//@   modifies *
+//@   atcall Value.Store requires [onlyARecoveredSenderIsCached] err == nil && dyntype(val) == typeid(sigCache) && unbox(val, sigCache).from == addr && unbox(val, sigCache).signer == signer
 //@ spec func txHashOf(tx *Transaction) common.Hash
 //@ trusted func (tx *Transaction) Hash() (r common.Hash)
 //@   ensures r == txHashOf(tx)
